@@ -16,7 +16,7 @@ def jOut (o : Out) : Json := Json.mkObj [
   ("staleDisconnect", .bool o.staleDisconnect)]
 
 def jProc (q : Proc) : Json := Json.mkObj [
-  ("pid", .num (JsonNumber.fromNat q.pid)), ("con", jOptConn q.pool.con), ("poolpid", jOptNat q.pool.pid),
+  ("pid", .num (JsonNumber.fromNat q.pid)), ("tid", .num (JsonNumber.fromNat q.tid)), ("con", jOptConn q.pool.con), ("poolpid", jOptNat q.pool.pid),
   ("pidAttr", .bool q.pool.pidAttr),
   ("forked", .arr (q.pool.forked.map (fun e => Json.arr #[jConn e.1, jOptNat e.2])).toArray),
   ("held", jOptConn q.held), ("fresh", .bool q.fresh)]
@@ -39,9 +39,12 @@ def parseAct : String → Except String Act
 
 def parseEv (j : Json) : Except String Ev := do
   match j with
-  | .arr #[.str "fork", p] => pure (.fork (← fromJson? p))
-  | .arr #[.str "act", p, .str a] => pure (.act (← fromJson? p) (← parseAct a))
-  | _ => throw "event: [\"fork\", p] or [\"act\", p, name]"
+  | .arr #[.str "fork", p] => pure (.fork (← fromJson? p) 0)
+  | .arr #[.str "fork", p, t] => pure (.fork (← fromJson? p) (← fromJson? t))
+  | .arr #[.str "spawn", p, t] => pure (.spawn (← fromJson? p) (← fromJson? t))
+  | .arr #[.str "act", p, .str a] => pure (.act (← fromJson? p) 0 (← parseAct a))
+  | .arr #[.str "act", p, t, .str a] => pure (.act (← fromJson? p) (← fromJson? t) (← parseAct a))
+  | _ => throw "event: [\"fork\", p(, t)], [\"spawn\", p, t] or [\"act\", p(, t), name]  (t = thread, default 0)"
 
 
 def handle (j : Json) : Except String Json := do
@@ -52,8 +55,9 @@ def handle (j : Json) : Except String Json := do
       let evs ← (← argArr j "events").mapM parseEv
       let (w, outs) := evs.foldl (fun (acc : World × List Json) e =>
         let o : Json := match e with
-          | .act p a => .arr ((outsOf acc.1 p a).map jOut).toArray
-          | .fork _ => .arr #[.num (JsonNumber.fromNat acc.1.nextPid)]
+          | .act p t a => .arr ((outsOf acc.1 p t a).map jOut).toArray
+          | .fork _ _ => .arr #[.num (JsonNumber.fromNat acc.1.nextPid)]
+          | .spawn _ _ => .arr #[]
         (step acc.1 e, acc.2 ++ [o])) (init k, [])
       pure (Json.mkObj [
         ("procs", .arr (w.procs.map jProc).toArray), ("outs", .arr outs.toArray),
